@@ -983,6 +983,11 @@ func (a *typedArrayObject) iterateStringKeys() iterNextFunc {
 
 func (a *typedArrayObject) exportToArrayOrSlice(dst reflect.Value, typ reflect.Type, ctx *objectExportCtx) error {
 	if typ == typeBytes {
+		if a.viewedArrayBuf.detached {
+			// like a detached ArrayBuffer: nil (the length field is stale after a detach)
+			dst.Set(reflect.Zero(typ))
+			return nil
+		}
 		dst.Set(reflect.ValueOf(a.viewedArrayBuf.data[a.offset*a.elemSize : (a.offset+a.length)*a.elemSize]))
 		return nil
 	}
@@ -990,6 +995,14 @@ func (a *typedArrayObject) exportToArrayOrSlice(dst reflect.Value, typ reflect.T
 }
 
 func (a *typedArrayObject) export(_ *objectExportCtx) interface{} {
+	if a.viewedArrayBuf.detached {
+		// the length and offset fields are stale after a detach; the array is empty
+		return reflect.Zero(a.typedArray.exportType()).Interface()
+	}
+	if a.length == 0 {
+		// do not form a pointer to an element that may not exist (e.g. an empty 8-byte-element view over a 4-byte buffer)
+		return reflect.MakeSlice(a.typedArray.exportType(), 0, 0).Interface()
+	}
 	return a.typedArray.export(a.offset, a.length)
 }
 
@@ -999,6 +1012,10 @@ func (a *typedArrayObject) exportType() reflect.Type {
 
 func (o *dataViewObject) exportToArrayOrSlice(dst reflect.Value, typ reflect.Type, ctx *objectExportCtx) error {
 	if typ == typeBytes {
+		if o.viewedArrayBuf.detached {
+			dst.Set(reflect.Zero(typ))
+			return nil
+		}
 		dst.Set(reflect.ValueOf(o.viewedArrayBuf.data[o.byteOffset : o.byteOffset+o.byteLen]))
 		return nil
 	}
